@@ -522,6 +522,9 @@ func (vx *Vaxis) render() {
 	var (
 		reposition = true
 		cursor     Style
+		// the text of the cell written just before the current one, ""
+		// when the cursor was moved in between
+		written string
 	)
 outerLast:
 	// Delete any placements we don't have this round
@@ -596,6 +599,7 @@ outerNew:
 				}
 				_, _ = vx.tw.WriteString(tparm(cup, row+1, col+1))
 				reposition = false
+				written = ""
 			}
 			// TODO Optimizations
 			// 1. We could save two bytes when both FG and BG change
@@ -775,12 +779,23 @@ outerNew:
 			}
 
 			switch {
-			case next.Width == 0:
-				_, _ = vx.tw.WriteString(" ")
 			case next.Width > 1 && vx.caps.explicitWidth:
 				_, _ = fmt.Fprintf(vx.tw, explicitWidth, next.Width, next.Grapheme)
+				written = ""
 			default:
-				_, _ = vx.tw.WriteString(next.Grapheme)
+				text := next.Grapheme
+				if next.Width == 0 {
+					text = " "
+				}
+				if joinsCluster(written, text) {
+					// A terminal that segments text into grapheme
+					// clusters itself would take this cell's text
+					// for a continuation of the previous cell's:
+					// a cursor movement keeps the two apart
+					_, _ = vx.tw.WriteString(tparm(cup, row+1, col+1))
+				}
+				_, _ = vx.tw.WriteString(text)
+				written = text
 			}
 			skip := vx.advance(next)
 			for i := 1; i < skip+1; i += 1 {
